@@ -59,7 +59,9 @@ def canonicalize_url(
     # Path normalization
     # NOTE: unreserved characters such as "." must be unescaped before resolving
     # dot segments, and the path can become empty once resolved
-    path = normpath(safely_unquote_path(path))
+    path = safely_unquote_path(path)
+    trailing_slash = path.endswith(("/", "/.", "/.."))
+    path = normpath(path)
 
     # Empty path etc.
     if not path or path == "/":
@@ -67,6 +69,10 @@ def canonicalize_url(
             path = ""
         else:
             path = "/"
+
+    # NOTE: "/a/" and "/a" are not the same resource
+    elif trailing_slash:
+        path += "/"
 
     # Quotes
     if user:
